@@ -800,7 +800,7 @@ func (c *compiler) compileForeach(e *Foreach) error {
 
 func (c *compiler) compileLabel(e *Label) error {
 	c.appendCodeInfo(e)
-	v := c.pushVariable("$%" + e.Ident[1:])
+	v := c.createVariable("$%" + e.Ident[1:])
 	c.append(&code{op: opforklabel, v: v})
 	return c.compileQuery(e.Body)
 }
